@@ -135,14 +135,10 @@ def rescale_findings(tree, scale, seed):
     tested = 0
     for _ in range(3):
         vals, dv = uc.valuation(rng)
-        try:
-            n = uc.eval_n(tree, vals, dv)
-        except (uc.bridge.Undefined, OverflowError, ZeroDivisionError, ValueError):
-            n = None
-        try:
-            s = uc.eval_si(tree, vals, dv)
-        except (uc.bridge.Undefined, OverflowError, ZeroDivisionError, ValueError):
-            s = None
+        if not uc.stable_point(tree, vals, dv):
+            continue
+        n = uc.try_eval(uc.eval_n, tree, vals, dv)
+        s = uc.try_eval(uc.eval_si, tree, vals, dv)
         if n is None and s is None:
             continue
         tested += 1
@@ -151,7 +147,7 @@ def rescale_findings(tree, scale, seed):
             break
         if isinstance(n, bool) or isinstance(s, bool):
             continue
-        if not (uc.close(s, n * scale, 1e-7) or abs(s - n * scale) < 1e-290):
+        if not uc.same_value(s / scale, n):
             out.append(('rescale', 'value %r in the returned unit (scale %r) but %r after rescaling the leaves to SI'
                         % (n, scale, s)))
             break
@@ -178,7 +174,7 @@ def work(case):
     if res['impl'][0] == 'ok':
         findings, causes, homog = structure_findings(W, eff)
         res['homog'] = homog
-        if homog:
+        if homog and 1e-250 < res['impl'][1] < 1e250:
             r, tested = rescale_findings(eff, res['impl'][1], zlib.crc32(repr(case["tree"]).encode()))
             findings += r
             res['tested'] = tested
@@ -191,7 +187,9 @@ def work(case):
 
 def safe_work(case):
     try:
-        return vlib.with_alarm(60, work, case)
+        return vlib.with_alarm(20, work, case)
+    except vlib.Timeout:
+        return {'skip': 'timeout (SymPy)'}
     except Exception as e:
         return {'skip': 'harness: ' + repr(e)[:300]}
 
@@ -202,6 +200,13 @@ def compare(impl, mod):
     if tag == 3:
         return 'unsupported'
     if tag == 0:
+        if impl[0] == 'err' and impl[1] == 'Other:OverflowError':
+            try:
+                sc = uc.vec_float(mod[1][0])
+            except OverflowError:
+                sc = 0.0
+            if not 1e-250 < sc < 1e250:
+                return 'unsupported'     # the exact scale is outside the float range (pint overflows)
         if impl[0] != 'ok':
             return 'model: unit, implementation raised %s' % impl[1]
         if not uc.same_unit_obs(mod[1], (impl[1], impl[2])):
@@ -258,7 +263,7 @@ def evaluate(ctx, cases, results, use_model=True):
 
 
 def run(ctx):
-    n = 500 if ctx.tier == 'quick' else 6000
+    n = 1200 if ctx.tier == 'quick' else 12000
     ctx.rule = ('random SymPy trees (depth <= 5) over + * ** Abs floor ceiling exp log trig Max Mod factorial '
                 'Piecewise relations And/Or Derivative, numbers, quantities and variables (with / without initial '
                 'value) in 21 units of 12 atoms (volt mV uV kV second ms minute metre cm percent ampere uA and '
